@@ -42,6 +42,20 @@ def handleMnb (toks : List String) : Option String := do
   | none => some "err"
   | some sts => some ("ok " ++ " ".intercalate (sts.map showM))
 
+/-- one `fit` on a whole dataset, answered through the TEXTBOOK model (`gnbTextbookState`): class
+frequencies, per-class means, variances + `var_smoothing * max_j Var_j` (not through `gnbStep`) -/
+def handleGnbBatch (toks : List String) : Option String := do
+  let vs ← argF64 toks "vs"; let p ← argNat toks "p"
+  match ← parseHist toks with
+  | [d] => if nbGuard p d then some ("ok " ++ showG (gnbTextbookState vs p d)) else some "err"
+  | _ => none
+
+def handleMnbBatch (toks : List String) : Option String := do
+  let a ← argF64 toks "alpha"; let p ← argNat toks "p"
+  match ← parseHist toks with
+  | [d] => some ("ok " ++ showM (mnbTextbookState a p d))
+  | _ => none
+
 def twoPi : Float := Float.ofBits 0x401921FB54442D18
 def inf : Float := Float.ofBits 0x7FF0000000000000
 
@@ -91,6 +105,21 @@ def handleKm (toks : List String) : Option String := do
     s!"cs={showList2 showF64c s.centroids}/cnt={showList showF64c s.counts}/conv={if conv then 1 else 0}/in={tF inertia}"
   some ("ok " ++ " ".intercalate parts)
 
+/-- `fit_with(None, ..)` with a non-precomputed initialisation: the `n_runs` candidates (drawn by the
+real `KMeansInit::run`) travel in the request; the selection (`pickInit` on the costs of the first batch)
+and everything after it is the model's -/
+def handleKmInitFit (toks : List String) : Option String := do
+  let tol ← argF64 toks "tol"
+  let m ← parseMetric toks
+  let cands ← (arg toks "cands").bind (parseList3 parseF64)
+  let xs ← (arg toks "x").bind (parseList3 parseF64)
+  match kmFitInitHistory m tol cands xs with
+  | none => some "err"
+  | some rs =>
+    let parts := rs.map fun (s, conv, inertia) =>
+      s!"cs={showList2 showF64c s.centroids}/cnt={showList showF64c s.counts}/conv={if conv then 1 else 0}/in={tF inertia}"
+    some ("ok " ++ " ".intercalate parts)
+
 def parseHp (toks : List String) : Option (FtrlHp Float) := do
   match ← argF64s toks "hp" with
   | [a, b, l1, l2] => some ⟨a, b, l1, l2⟩
@@ -121,14 +150,19 @@ def handleFtrlPred (toks : List String) : Option String := do
   if z.length != n.length then none else
   some ("ok p=" ++ showList tF (ftrlProbs 35.0 r32 hp ⟨z, n⟩ xs))
 
+/-- a history of `fit_with` calls; `hps` = the hyper-parameters of the PARAMETERS of each call (the model
+keeps the ones it was created with) -/
 def handleFtrlFit (toks : List String) : Option String := do
-  let hp ← parseHp toks
+  let hps ← (← argF64s2 toks "hps").mapM fun
+    | [a, b, l1, l2] => some (⟨a, b, l1, l2⟩ : FtrlHp Float)
+    | _ => none
   let z0 ← argF64s toks "z0"
   let xs ← (arg toks "x").bind (parseList3 parseF64)
   let ys ← argNats2 toks "y"
-  if xs.length != ys.length then none else
-  let sts := ftrlFitHistory 35.0 r32 hp z0 none ((xs.zip ys).map fun b => (b.1, b.2.map (· != 0)))
-  some ("ok " ++ " ".intercalate (sts.map (showF hp)))
+  if xs.length != ys.length || hps.length != xs.length then none else
+  let hist := hps.zip ((xs.zip ys).map fun b => (b.1, b.2.map (· != 0)))
+  let ms := ftrlFitHistoryM 35.0 r32 z0 none hist
+  some ("ok " ++ " ".intercalate (ms.map fun m => showF m.hp m.st))
 
 def handle (toks : List String) : String :=
   let r := match toks with
@@ -136,7 +170,10 @@ def handle (toks : List String) : String :=
     | "mnb" :: rest => handleMnb rest
     | "gnb_pred" :: rest => handleGnbPred rest
     | "mnb_pred" :: rest => handleMnbPred rest
+    | "gnb_batch" :: rest => handleGnbBatch rest
+    | "mnb_batch" :: rest => handleMnbBatch rest
     | "km" :: rest => handleKm rest
+    | "km_initfit" :: rest => handleKmInitFit rest
     | "ftrl_update" :: rest => handleFtrlUpdate rest
     | "ftrl_fit" :: rest => handleFtrlFit rest
     | "ftrl_pred" :: rest => handleFtrlPred rest
